@@ -82,3 +82,26 @@ Theorem C12_oversize_reply_replaced_under_its_own_id :
     | _ => False
     end.
 Proof. exact shrink_reply_same_id. Qed.
+
+(* ---------- interleaved semantics (Model/Conc.v): every schedule of suspended requests, disconnects, time-outs ---------- *)
+From Coq Require Import List NArith.
+From NW Require Import Model.Conc Proofs.ConcDefs Proofs.ConcEv Proofs.ConcInv Proofs.ConcSmall Proofs.ConcMore Proofs.ConcProgress Proofs.ConcSource Gen.ConcFlags.
+Import ListNotations.
+Local Open Scope N_scope.
+
+Theorem C12_conc_reply_discipline :
+  forall (cf : ccfg) (t : tid) (c : conn) (me : user) (g : gst) (p : pc) 
+      (ok : bool) (hint : user) (g' : gst) (p' : pc) (os : list cout),
+    p <> PDone ->
+    seg cf t (Some c) me g p ok hint = (g', p', os) ->
+    (p' <> PDone -> answers c (pc_id p) os = []) /\
+    (p' = PDone ->
+     (exists o : cout, answers c (pc_id p) os = [o]) \/
+     answers c (pc_id p) os = [OAck c (pc_id p) A_LEAVE; OClose c E_INTERNAL]).
+Proof. exact conc_reply_discipline. Qed.
+
+Theorem C12_conc_always_drains :
+  forall (cf : ccfg) (es : list ev),
+    fixed cf ->
+    exists es' : list ev, runs_only es' /\ quiescent (fst (crun cf (cstate_after cf es) es')).
+Proof. exact conc_always_drains. Qed.
